@@ -20,13 +20,15 @@ const (
 
 func init() {
 	Register(&Rule{ID: "R-TXN-11", Props: []string{"C01", "C08"}, Floor: 2,
-		Doc:      "point of no return: in (*Transaction).Commit and the lib/query functions it statically calls, after a call that advances restore points (StoreTemporaryTable, View.CreateRestorePoint, Session.updateStdinView, or a lib/query function calling one of them directly — the transitive call graph is not used for these callback-reached steps) no call of the file phase is reachable (nothing that reaches EncodeView or (*file.Container).Commit, no (*os.File) Write/Truncate/Seek), and every return reachable from it yields a nil error except behind the failure edge of the call that reaches ReleaseResources (the files are already swapped then): a failing COMMIT leaves every temporary table with the restore point of the last successful COMMIT. Mirror: every exit of (*Transaction).Rollback, failing or not, has passed RestoreTemporaryTable when scope != nil",
-		Controls: []string{"CtlTxn11RestorePointsFirst"},
+		Doc:      "point of no return: in (*Transaction).Commit and the lib/query functions it statically calls, after a call that advances restore points (StoreTemporaryTable, View.CreateRestorePoint, Session.updateStdinView, or a lib/query function calling one of them directly — the transitive call graph is not used for these callback-reached steps) no call of the file phase is reachable (nothing that reaches EncodeView or (*file.Container).Commit, no (*os.File) Write/Truncate/Seek), and every return reachable from it yields a nil error except behind the failure edge of the call that reaches ReleaseResources (the files are already swapped then; the result of such a call may also be returned as it is when the callee is ReleaseResources or a lib/query helper that, from its entry, has no file phase and no other failing return): a failing COMMIT leaves every temporary table with the restore point of the last successful COMMIT. Mirror: every exit of (*Transaction).Rollback, failing or not, has passed RestoreTemporaryTable when scope != nil",
+		Controls: []string{"CtlTxn11RestorePointsFirst", "CtlTxn11TailHelperFails"},
 		Run:      ruleTxn11})
 }
 
 func ruleTxn11(c *Ctx) {
 	p := c.P
+	start := len(c.Obs)
+	defer c.negControls(start, "okTxn11RestorePointsLast", "okTxn11TailHelper")
 	commit := c.Fn(txnTxCommit)
 	rollback := c.Fn(txnTxRollback)
 	if commit == nil || rollback == nil || c.Fn(txnStoreTemp) == nil || c.Fn(txn11RestorePoint) == nil {
@@ -86,9 +88,78 @@ func ruleTxn11(c *Ctx) {
 	sortFuncs(p, fns[1:])
 	fns = append(fns, txnCtl(c, "Txn11")...)
 
+	// release-failure edges: behind them the files are already swapped
+	relCut := func(from, to *ssa.BasicBlock) bool {
+		return txnNilEdge(from, to, func(v ssa.Value) bool {
+			rc, ok := txnThroughCell(v).(*ssa.Call)
+			return ok && txnCallIn(p, rc, releaseSet)
+		}, false)
+	}
+	// scan: what is reachable from b.Instrs[start:] of fn — a file-phase call, or a return that can report a
+	// failure other than the failure of the release. A return whose error operand is the very result of a
+	// call that reaches ReleaseResources (`return tx.ReleaseResources()`, `return tx.finish(expr, NewXError)`)
+	// is the failure edge of that call handed to the caller unchanged; it is accepted when the callee is
+	// ReleaseResources itself or a lib/query function that, scanned from its entry in the same way, has
+	// no file phase and no other failing return (the closing calls extracted into a helper).
+	tailMemo := map[*ssa.Function]string{}
+	var scan func(fn *ssa.Function, b *ssa.BasicBlock, start int, depth int) string
+	tailWhy := func(rc *ssa.Call, depth int) (string, bool) {
+		if !txnCallIn(p, rc, releaseSet) {
+			return "", false
+		}
+		h := core.StaticCallee(rc)
+		if h == nil {
+			return "", false
+		}
+		if p.FnRef(h) == txnTxRelease {
+			return "", true
+		}
+		if h.Blocks == nil || depth >= 3 || !(p.InPkg(h, "lib/query") || p.IsControl(h)) {
+			return "", false
+		}
+		if w, ok := tailMemo[h]; ok {
+			return w, true
+		}
+		tailMemo[h] = "" // a recursive helper adds nothing to its own verdict
+		w := scan(h, h.Blocks[0], 0, depth+1)
+		tailMemo[h] = w
+		return w, true
+	}
+	scan = func(fn *ssa.Function, b *ssa.BasicBlock, start int, depth int) string {
+		errIdx := core.ErrorResultIndex(fn)
+		why := ""
+		core.WalkPruned(b, start, func(x ssa.Instruction) bool {
+			if why != "" {
+				return false
+			}
+			if isFilePhase(x) {
+				why = fmt.Sprintf("the file phase (%s at %s) still runs after the restore points of temporary tables / stdin views have advanced", txnCallLabel(p, x.(ssa.CallInstruction)), c.Pos(x))
+				return false
+			}
+			if r, ok := x.(*ssa.Return); ok && errIdx >= 0 {
+				for _, v := range core.ReturnOperand(r, errIdx) {
+					if v == nil || core.ClassifyNil(v, r) == core.IsNil {
+						continue
+					}
+					if rc, isCall := txnThroughCell(v).(*ssa.Call); isCall {
+						if w, isTail := tailWhy(rc, depth); isTail {
+							if w != "" && why == "" {
+								why = w + " (in " + txnCallLabel(p, rc) + ", whose result the return at " + c.Pos(r) + " hands on)"
+							}
+							continue
+						}
+					}
+					why = fmt.Sprintf("the return at %s can report a failure after the restore points have advanced", c.Pos(r))
+				}
+				return false
+			}
+			return true
+		}, relCut)
+		return why
+	}
+
 	nFile, nAdv := 0, 0
 	for _, fn := range fns {
-		errIdx := core.ErrorResultIndex(fn)
 		ord := map[string]int{}
 		for _, b := range fn.Blocks {
 			for _, in := range b.Instrs {
@@ -105,32 +176,7 @@ func ruleTxn11(c *Ctx) {
 				c.Touch(fn)
 				call := in.(*ssa.Call)
 				key := txnOrd(ord, c.KeyAt(fn, "no failing exit after "+txnCallLabel(p, call)))
-				// release-failure edges: behind them the files are already swapped
-				cut := func(from, to *ssa.BasicBlock) bool {
-					return txnNilEdge(from, to, func(v ssa.Value) bool {
-						rc, ok := txnThroughCell(v).(*ssa.Call)
-						return ok && txnCallIn(p, rc, releaseSet)
-					}, false)
-				}
-				why := ""
-				core.WalkPruned(in.Block(), core.InstrIndex(in)+1, func(x ssa.Instruction) bool {
-					if why != "" {
-						return false
-					}
-					if isFilePhase(x) {
-						why = fmt.Sprintf("the file phase (%s at %s) still runs after the restore points of temporary tables / stdin views have advanced", txnCallLabel(p, x.(ssa.CallInstruction)), c.Pos(x))
-						return false
-					}
-					if r, ok := x.(*ssa.Return); ok && errIdx >= 0 {
-						for _, v := range core.ReturnOperand(r, errIdx) {
-							if v != nil && core.ClassifyNil(v, r) != core.IsNil {
-								why = fmt.Sprintf("the return at %s can report a failure after the restore points have advanced", c.Pos(r))
-							}
-						}
-						return false
-					}
-					return true
-				}, cut)
+				why := scan(fn, in.Block(), core.InstrIndex(in)+1, 0)
 				if why != "" {
 					c.Bad(key, c.Pos(in), why+": if COMMIT fails there, the ROLLBACK that follows restores the temporary tables to the uncommitted state while the files go back to the last commit")
 				} else {
